@@ -471,7 +471,20 @@ func (fv *FuncVC) copyBuiltin(v ssa.Value, cc *ssa.CallCommon, pos token.Pos) {
 		fv.forallCopy(nd, z, x, z, n.S),
 		fv.forallCopy(nd, n.S, d, n.S, fv.isub(fv.lenOf(d), n.S))))
 	_ = ks
+	if d.Sort.Kind == KBytes && x.Sort.Kind == KBytes {
+		// a complete overwrite gives the destination the source's ghosts
+		full := smtAnd(app("=", fv.lenOf(d), fv.lenOf(x)))
+		for _, g := range []string{"Bytes_g1", "Bytes_g2", "Bytes_g3"} {
+			fv.assert(smtImp(full, app("=", app(g, nd.S), app(g, x.S))))
+		}
+	}
 	fv.cur.slices[cc.Args[0]] = nd
+	// the destination was read from a variable: that variable sees the new content too
+	if u, ok := cc.Args[0].(*ssa.UnOp); ok && u.Op == token.MUL {
+		if a, ok := fv.vals[u.X]; ok && a.LV != nil {
+			fv.store(fv.cur, a.LV, nd)
+		}
+	}
 	if v != nil {
 		fv.vals[v] = Val{T: n}
 	}
